@@ -300,16 +300,6 @@ Section Rules.
     && forallb (fun o => mem o (map fst vars)) (t_outs t).
 
   (* ---- R9: no recursion ---- *)
-  Fixpoint stmt_calls (s : stmt) : list name :=
-    match s with
-    | SService _ _ _ => []
-    | SCall c => [c_name c]
-    | SParallel cs => map c_name cs
-    | SWhile _ b => flat_map stmt_calls b
-    | SCount _ _ _ b => flat_map stmt_calls b
-    | SCond _ p f => flat_map stmt_calls p ++ flat_map stmt_calls f
-    end.
-
   Definition task_calls (t : task) : list name := flat_map stmt_calls (t_body t).
 
   (* every chain of calls starting at task n has fewer than k links *)
